@@ -496,7 +496,7 @@ static size_t quad_level_points(double f, double tol)
 static void group_simplex(vh_ctx *c)
 {
   size_t n = (size_t)vh_int(c, 2, 6), i, j, t;
-  int lattice = vh_coin(c, 0.12), defstep = vh_coin(c, 0.15), level = 0;
+  int lattice = vh_coin(c, 0.12), defstep = vh_coin(c, 0.15), level = 0, straddle = 0;
   double kappa, lmax, x0[6], st[6], finit = INFINITY, res, xsn = 0, dist = 0, fbest, xtol = NM_XTOL;
   dvector *vx0, *vstep = NULL, *best;
   Q.n = n; Q.evals = 0;
@@ -509,6 +509,10 @@ static void group_simplex(vh_ctx *c)
     kappa = lmax / (double)lo;
     for (i = 0; i < n; i++) { Q.xs[i] = (double)vh_int(c, -5, 5); x0[i] = Q.xs[i] + (double)vh_int(c, -6, 6); st[i] = (double)(vh_coin(c, 0.5) ? 1 : -1) * (double)vh_int(c, 1, 4); }
     Q.f0 = (double)vh_int(c, -10, 10);
+    /* straddling start (second build session, side PRNG stream): x0_j = x*_j - step_j/2 with even steps puts every vertex of the start
+       simplex on one level set exactly; the documented algorithm leaves it with its first contraction and converges */
+    { vh_ctx cc = *c; cc.s[2] ^= 0x8EBC6AF09C88C6E3ULL; (void)vh_u64(&cc); (void)vh_u64(&cc);
+      if (vh_coin(&cc, 0.25)) { for (i = 0; i < n; i++) { st[i] = (double)(vh_coin(&cc, 0.5) ? 1 : -1) * 2.0 * (double)vh_int(&cc, 1, 3); x0[i] = Q.xs[i] - st[i] / 2.0; } straddle = 1; } }
   } else {
     ldm *R = ldm_new(n, n);
     ld lam[6];
@@ -528,7 +532,8 @@ static void group_simplex(vh_ctx *c)
     Q.f0 = vh_coin(c, 0.3) ? 0.0 : vh_range(c, -10, 10);
     if (level) { Q.f0 = (vh_coin(c, 0.5) ? 1.0 : -1.0) * vh_logunif(c, 7.5, 8.7); if (vh_coin(c, 0.5)) for (i = 0; i < n; i++) { x0[i] -= Q.xs[i]; Q.xs[i] = 0; } }
   }
-  if (defstep) for (i = 0; i < n; i++) st[i] = 0.5;
+  if (defstep && !straddle) for (i = 0; i < n; i++) st[i] = 0.5;
+  if (straddle) { defstep = 0; vh_obs("simplex_runs_from_a_straddling_start", 1); }
   vh_class(c, "simplex-%s-n%zu-k%s-%s", lattice ? "lattice" : level ? "level" : "random", n, kappa < 3 ? "<3" : kappa < 30 ? "<30" : "<=100", defstep ? "defaultstep" : "steps");
   vh_desc(c, "group=simplex dim=%zu kappa=%.4g lambda_max=%.4g lattice=%d default_step=%d f0=%.6g xstar0=%.17g start0=%.17g step0=%.6g", n, kappa, lmax, lattice, defstep, Q.f0, Q.xs[0], x0[0], st[0]);
   if (c->verbose) {
@@ -563,6 +568,7 @@ static void group_simplex(vh_ctx *c)
        of the objective over the simplex, which is then 0 on a simplex of any size); anything else */
     size_t lvl = quad_level_points(res, xtol);
     const char *key = Q.evals >= NM_ITER ? "NelderMeadSimplex|convergence|iteration-budget-exhausted"
+                    : Q.evals <= (long)n + 1 ? "NelderMeadSimplex|convergence|returned-without-a-single-iteration"     /* only the start simplex was evaluated */
                     : lvl >= n + 1 ? "NelderMeadSimplex|convergence|stopped-early-with-zero-f-spread"
                     : "NelderMeadSimplex|convergence";
     vh_fail(c, key, "|best - x*| = %.3g > 1e-4 (1 + |x*|) = %.3g after %ld objective evaluations (dim %zu, kappa %.3g, %s family, f - f* = %.3g, %zu distinct evaluated points with the returned value)", dist, 1e-4 * (1 + xsn), Q.evals, n, kappa, lattice ? "lattice" : "general-position", res - Q.f0, lvl);
